@@ -1,7 +1,9 @@
 CONSTANTS
-  MaxBody = 6
+  MaxBody = 3
   EscapedSkip = "one"
 INIT Init
 NEXT Next
-INVARIANT EmitCase
+INVARIANT QuoteAgrees
+INVARIANT TypeOK
+PROPERTY Progress
 CHECK_DEADLOCK FALSE
